@@ -34,6 +34,13 @@ def mss(c):
     return '%d:%02d.%02d' % (m, r // 100, r % 100)
 
 
+def hmss(c):
+    """h:mm:ss.xx text of c centiseconds (c >= 360000)."""
+    h, r = divmod(c, 360000)
+    m, r = divmod(r, 6000)
+    return '%d:%02d:%02d.%02d' % (h, m, r // 100, r % 100)
+
+
 def hazard(c):
     return 100 * centi_float(c) != c
 
@@ -76,6 +83,9 @@ def examine_tyrving(case):
     if timed and c >= 6000:
         carriers.append(('m:ss.xx', mss(c)))
         carriers.append(('m.ss.xx', mss(c).replace(':', '.')))
+    if timed and c >= 360000:
+        carriers.append(('h:mm:ss.xx', hmss(c)))
+        carriers.append(('h.mm.ss.xx', hmss(c).replace(':', '.')))
     sp = case.get('spelling', ev)           # the event as the caller spells it (normalises to the key)
     for name, perf in carriers:
         _cmp(out, 'equals-table', sig + (['caller-spelling'] if sp != ev else []), case, name,
@@ -98,6 +108,9 @@ def examine_tyrving(case):
             texts += [('m:ss.t', t1), ('m.ss.t', t1.replace(':', '.')), ('m:ss,t', t1.replace('.', ','))]
             if c % 100 == 0:
                 texts.append(('m:ss', t1[:-2]))
+            if c >= 360000:
+                h1 = hmss(c)[:-1]
+                texts += [('h:mm:ss.t', h1), ('h.mm.ss.t', h1.replace(':', '.'))]
         for name, perf in texts:
             _cmp(out, 'hand-timed-convention' if timed else 'equals-table', sig + ['hand'], case, name,
                  call(athlib.tyrving_score, g, age, ev, perf), hw)
@@ -149,6 +162,16 @@ def examine_sportshall(case):
     for name, perf in carriers:
         _cmp(out, 'equals-table', ['sportshall', ev if region == 'table' and ev == 'SHJ' else region], case, name,
              call(athlib.sportshall_score, ev, perf), want)
+    # the event as callers spell it (the function folds letter case itself) and the documented `verbose` option: the same
+    # event, the same points
+    import contextlib, io
+    sps = [x for x in (ev.lower(), ev.title(), ev[:1] + ev[1:].lower()) if x != ev]
+    for sp in dict.fromkeys(sps):
+        _cmp(out, 'equals-table', ['sportshall', 'caller-spelling'], dict(case, spelling=sp), 'text2',
+             call(athlib.sportshall_score, sp, fmt2(c)), want)
+    with contextlib.redirect_stdout(io.StringIO()):
+        rv = call(athlib.sportshall_score, ev, fmt2(c), verbose=True)
+    _cmp(out, 'equals-table', ['sportshall', 'verbose-option'], case, 'text2', rv, want)
     return out
 
 
